@@ -100,12 +100,13 @@ Section Inv.
     f_freed : o_box x = BFreed -> o_box x' = BFreed;
     f_dropped : o_vst x = VDropped -> o_vst x' = VDropped;
     f_uninit : o_vst x = VUninit -> o_vst x' = VUninit /\ o_box x' = o_box x;
+    f_dropping : o_vst x = VDropping -> o_vst x' = VDropping;
   }.
   Lemma ObjF_refl x : ObjF x x.
   Proof. split; auto. Qed.
   Lemma ObjF_trans x y z : ObjF x y -> ObjF y z -> ObjF x z.
   Proof.
-    intros [A1 A2 A3 A4 A5] [B1 B2 B3 B4 B5]. split; try congruence; auto.
+    intros [A1 A2 A3 A4 A5 A6] [B1 B2 B3 B4 B5 B6]. split; try congruence; auto.
     intros H. destruct (A5 H) as [H1 H2]. destruct (B5 H1) as [H3 H4]. split; congruence.
   Qed.
   Lemma ObjF_lv x x' : lv x' = lv x -> ObjF x x'.
@@ -140,6 +141,61 @@ Section Inv.
   Qed.
   Lemma Ls_weaken n0 n1 m m' : (n0 <= n1)%nat -> Ls n1 m m' -> Ls n0 m m'.
   Proof. intros Hle (A & B & C). split; [exact A|]. split; [exact B|]. intros H. eapply Frame_weaken; eauto. Qed.
+
+  (** the same with one exempted object (the one whose own drop glue is running): for it only
+      the map flag and the stability of never-allocated / freed boxes are claimed *)
+  Record ObjW (x x' : obj) : Prop := {
+    w_map : o_ismap x' = o_ismap x;
+    w_notyet : o_box x = BNotYet -> o_box x' = BNotYet;
+    w_freed : o_box x = BFreed -> o_box x' = BFreed;
+  }.
+  Lemma ObjF_W x x' : ObjF x x' -> ObjW x x'.
+  Proof. intros [A1 A2 A3 _ _ _]. split; assumption. Qed.
+  Lemma ObjW_trans x y z : ObjW x y -> ObjW y z -> ObjW x z.
+  Proof. intros [A1 A2 A3] [B1 B2 B3]. split; try congruence; auto. Qed.
+  Definition ObjFx (w : bool) (x x' : obj) : Prop := if w then ObjW x x' else ObjF x x'.
+  Lemma ObjFx_trans w x y z : ObjFx w x y -> ObjFx w y z -> ObjFx w x z.
+  Proof. destruct w; [apply ObjW_trans | apply ObjF_trans]. Qed.
+  Lemma ObjF_Fx w x x' : ObjF x x' -> ObjFx w x x'.
+  Proof. destruct w; [apply ObjF_W | auto]. Qed.
+
+  Definition FrameX (ex : option id) (n0 : nat) (m m' : machine) : Prop :=
+    (length (heap m) <= length (heap m'))%nat /\
+    forall o x, (o < n0)%nat -> get m o = Some x ->
+      exists x', get m' o = Some x' /\ ObjFx (bool_decide (ex = Some o)) x x'.
+  Lemma Frame_X ex n0 m m' : Frame n0 m m' -> FrameX ex n0 m m'.
+  Proof.
+    intros [L H]. split; [exact L|]. intros o x Ho Hx. destruct (H o x Ho Hx) as (x' & Hx' & HF).
+    exists x'. split; [exact Hx' | apply ObjF_Fx, HF].
+  Qed.
+  Lemma FrameX_trans ex n0 m1 m2 m3 : FrameX ex n0 m1 m2 -> FrameX ex n0 m2 m3 -> FrameX ex n0 m1 m3.
+  Proof.
+    intros [L1 H1] [L2 H2]. split; [lia|]. intros o x Ho Hx.
+    destruct (H1 o x Ho Hx) as (y & Hy & F1). destruct (H2 o y Ho Hy) as (z & Hz & F2).
+    exists z. split; [exact Hz | eapply ObjFx_trans; eassumption].
+  Qed.
+  Definition LsX (ex : option id) (n0 : nat) (m m' : machine) : Prop :=
+    (G m' -> G m) /\ (G m' -> Linv m -> Linv m') /\ (G m' -> FrameX ex n0 m m').
+  Lemma Ls_X ex n0 m m' : Ls n0 m m' -> LsX ex n0 m m'.
+  Proof. intros (A & B & C). split; [exact A|]. split; [exact B|]. intros H. apply Frame_X, C, H. Qed.
+  Lemma LsX_trans ex n0 m1 m2 m3 : LsX ex n0 m1 m2 -> LsX ex n0 m2 m3 -> LsX ex n0 m1 m3.
+  Proof.
+    intros (A1 & A2 & A3) (B1 & B2 & B3). split; [auto|]. split; [auto|].
+    intros H. eapply FrameX_trans; eauto.
+  Qed.
+  (** closing: the exempted object was neither dropped, nor uninitialised, nor being dropped at
+      the start *)
+  Lemma LsX_close o n0 m m' :
+    LsX (Some o) n0 m m' ->
+    (G m' -> forall x, get m o = Some x -> o_vst x <> VDropped /\ o_vst x <> VUninit /\ o_vst x <> VDropping) ->
+    Ls n0 m m'.
+  Proof.
+    intros (A & B & C) Hv. split; [exact A|]. split; [exact B|]. intros HG. destruct (C HG) as [L H].
+    split; [exact L|]. intros o' x Ho Hx. destruct (H o' x Ho Hx) as (x' & Hx' & HF). exists x'. split; [exact Hx'|].
+    unfold ObjFx in HF. destruct (bool_decide (Some o = Some o')) eqn:Hd; [|exact HF].
+    apply bool_decide_eq_true in Hd. injection Hd as <-. destruct HF as [W1 W2 W3].
+    destruct (Hv HG x Hx) as (V1 & V2 & V3). split; auto; intros; contradiction.
+  Qed.
 
   (** ** Quiet changes: no object changes its lifecycle view, only irrelevant events are logged,
       the heap keeps its length, [dead] only grows *)
@@ -280,13 +336,12 @@ Section Inv.
 End Inv.
 
 Ltac hfin :=
-  intros; unfold inc_tc, reset_tc, set_mark, set_tc, set_dropped, set_side, set_rc; cbn;
+  intros; unfold inc_tc, inc_rc, dec_rc, reset_tc, set_mark, set_tc, set_dropped, set_side, set_rc; cbn;
   repeat match goal with |- context [if ?c then _ else _] => destruct c end; reflexivity.
 Create HintDb lq discriminated.
 #[export] Hint Resolve Quiet_refl Quiet_emit_bad Quiet_dead : lq.
 #[export] Hint Extern 1 (Quiet _ (set _ _ ?X)) => (apply (Quiet_same _ X _ eq_refl eq_refl eq_refl)) : lq.
 #[export] Hint Extern 1 (Quiet _ (emit _ _)) => (apply Quiet_emit; [reflexivity|]) : lq.
-#[export] Hint Extern 2 (Quiet _ (uhdr _ _ _)) => (apply Quiet_uhdr; [hfin|]) : lq.
 #[export] Hint Extern 1 (Quiet _ (upd _ _ _)) => (apply Quiet_upd; [intros; reflexivity|]) : lq.
 Lemma inc_rc_fin h0 h : inc_rc h0 = Some h -> h_fin h = h_fin h0.
 Proof. unfold inc_rc. destruct (_ =? _); [discriminate|]. intros [= <-]. reflexivity. Qed.
@@ -304,8 +359,8 @@ Ltac hconst :=
     | H : get ?m ?c = Some ?x |- h_fin _ = h_fin (match get ?m' ?c with _ => _ end) =>
       change (get m' c) with (get m c); rewrite H
     end; hfin ].
-#[export] Hint Extern 1 (Quiet _ (uhdr _ (fun _ => ?h) _)) =>
-  (apply Quiet_uhdr_const; [hconst | ]) : lq.
+#[export] Hint Extern 1 (Quiet _ (uhdr _ _ _)) =>
+  (first [ apply Quiet_uhdr_const; [hconst | ] | apply Quiet_uhdr; [hfin | ] ]) : lq.
 Ltac lq := eauto 12 with lq.
 
 Section Helpers.
